@@ -41,6 +41,9 @@ func (x *Exec) callValue(f *Frame, st *State, ins ssa.Instruction, fv Value, arg
 			return x.callValue(f, st, ins, known, args, sig)
 		}
 		if fn.Op == "ite" {
+			if s := x.simplifyUnder(st.PC, fn); s != fn {
+				return x.callValue(f, st, ins, s, args, sig)
+			}
 			// dispatch over the alternatives
 			sa := st.clone()
 			sa.PC = x.B.And(st.PC, fn.Args[0])
